@@ -30,6 +30,8 @@ var families = map[string]genFn{
 	"status": genStatus,
 	"forge":  genForge,
 	"garbage": genGarbage,
+	"transport": genTransport,
+	"oneonone": genOneOnOne,
 }
 
 func main() {
